@@ -213,6 +213,7 @@ GROUPS = {
     "silence": ("GenSilence.v", "TieSilence.v", ["tie_make_silence"]),
     "buf": ("GenBuf.v", "TieBuf.v", ["tie_buf_read", "tie_buf_setpos", "tie_buf_getpos", "tie_buf_getpos_ms"]),
     "fmt": ("GenFmt.v", "TieFmt.v", ["tie_fields"]),
+    "reader": ("GenReader.v", "TieReader.v", ["tie_reader_params"]),
     "loops": ("GenLoops.v", "TieLoops.v", ["tie_run_turn", "tie_stop_requested", "tie_tok_read", "tie_programs"]),
 }
 
@@ -955,7 +956,133 @@ def gen_loops(repo):
     return loops.emit(repo)
 
 
-GENERATORS = {"loops": gen_loops, "savers": gen_savers, "fsrc": gen_fsrc, "algebra": gen_algebra, "split": gen_split, "dur": gen_dur, "region": gen_region, "silence": gen_silence, "buf": gen_buf, "fmt": gen_fmt}
+# ---------------------------------------------------------------- reader constructor arithmetic
+
+READER_TRACKED = {"_block_size": "block_size", "_hop_size": "hop_size", "_max_samples": "max_samples"}
+
+
+def slice_reader(util):
+    """The statements of AudioReader.__init__ and of the constructors of the wrapper classes it instantiates that decide the block
+    size, the hop size and the sample budget, as one function of (block_dur, hop_dur, max_read, sr): constructor calls
+    `input = _Cls(input, ...)` are replaced by the body of _Cls.__init__ (and, through super().__init__, of its base classes),
+    with `self.<tracked attribute>` as a local name and `self.sr` as the parameter sr; statements that neither assign a tracked
+    attribute nor raise are dropped; tests may only mention the parameters and the tracked names."""
+    classes = {n.name: n for n in util.body if isinstance(n, ast.ClassDef)}
+    allowed = {"block_dur", "hop_dur", "max_read", "sr"} | set(READER_TRACKED.values())
+
+    def init_of(cname):
+        c = classes.get(cname)
+        while c is not None:
+            for m in c.body:
+                if isinstance(m, ast.FunctionDef) and m.name == "__init__":
+                    return c, m
+            nxt = None
+            for b in c.bases:
+                if isinstance(b, ast.Name) and b.id in classes:
+                    nxt = classes[b.id]
+            c = nxt
+        return None, None
+
+    class SelfSubst(ast.NodeTransformer):
+        def __init__(self, mp):
+            self.mp = mp
+
+        def visit_Attribute(self, n):
+            if isinstance(n.value, ast.Name) and n.value.id == "self":
+                if n.attr in READER_TRACKED:
+                    return ast.copy_location(ast.Name(id=READER_TRACKED[n.attr], ctx=n.ctx), n)
+                if n.attr in ("sr", "sampling_rate"):
+                    return ast.copy_location(ast.Name(id="sr", ctx=ast.Load()), n)
+            return self.generic_visit(n)
+
+        def visit_Name(self, n):
+            if n.id in self.mp:
+                return ast.copy_location(ast.parse(ast.unparse(self.mp[n.id]), mode="eval").body, n)
+            return n
+
+    def ctor_body(cname, args, depth=0):
+        if depth > 4:
+            bad(util, "constructor chain too deep")
+        cls, init = init_of(cname)
+        if init is None:
+            return []
+        params = [a.arg for a in init.args.args][1:]
+        if len(args) != len(params) or init.args.defaults or init.args.vararg or init.args.kwarg:
+            bad(init, "constructor %s.__init__ called with another shape than its signature" % cname)
+        mp = dict(zip(params, args))
+        out = []
+        for st in init.body:
+            st = SelfSubst(mp).visit(ast.parse(ast.unparse(st)).body[0])
+            # super().__init__(...)  /  Base.__init__(self, ...)
+            if isinstance(st, ast.Expr) and isinstance(st.value, ast.Call) and ast.unparse(st.value.func) == "super().__init__":
+                base = next((b.id for b in cls.bases if isinstance(b, ast.Name) and b.id in classes), None)
+                if base is not None:
+                    out.extend(ctor_body(base, st.value.args, depth + 1))
+                continue
+            out.append(st)
+        return out
+
+    def keep(stmts):
+        out = []
+        for st in stmts:
+            if isinstance(st, ast.Expr) and isinstance(st.value, ast.Constant):
+                continue
+            if isinstance(st, ast.Assign) and len(st.targets) == 1 and isinstance(st.value, ast.Call) and isinstance(st.value.func, ast.Name) \
+                    and st.value.func.id in classes and not st.value.keywords:
+                out.extend(keep(ctor_body(st.value.func.id, st.value.args)))
+                continue
+            if isinstance(st, ast.If):
+                b, o = keep(st.body), keep(st.orelse)
+                if b or o:
+                    for n in ast.walk(st.test):
+                        if isinstance(n, ast.Name) and n.id not in allowed and n.id not in ("None",):
+                            bad(st, "a test deciding the reader sizes mentions %s" % n.id)
+                    out.append(ast.copy_location(ast.If(test=st.test, body=b or [ast.Pass()], orelse=o), st))
+                continue
+            if isinstance(st, ast.Raise):
+                out.append(st); continue
+            if isinstance(st, ast.Assign) and any(isinstance(n, ast.Name) and isinstance(n.ctx, ast.Store) and n.id in READER_TRACKED.values() for t in st.targets for n in ast.walk(t)):
+                if not (len(st.targets) == 1 and isinstance(st.targets[0], ast.Name)):
+                    bad(st, "tracked attribute assigned in an unsupported way")
+                out.append(st); continue
+            if any(isinstance(n, ast.Name) and isinstance(n.ctx, ast.Store) and n.id in READER_TRACKED.values() for n in ast.walk(st)):
+                bad(st, "tracked attribute assigned inside an unsupported statement")
+        return out
+    rd = classes.get("AudioReader")
+    if rd is None:
+        raise TranslationError("class AudioReader not found")
+    init = next((m for m in rd.body if isinstance(m, ast.FunctionDef) and m.name == "__init__"), None)
+    if init is None:
+        raise TranslationError("AudioReader.__init__ not found")
+    body = keep([SelfSubst({}).visit(ast.parse(ast.unparse(x)).body[0]) for x in init.body])
+    if any(isinstance(x, ast.Raise) for x in body):
+        bad(init, "unconditional raise in AudioReader.__init__")
+    f = ast.parse("def reader_params_slice(block_dur, hop_dur, max_read, sr):\n    hop_size = None\n    max_samples = None").body[0]
+    f.body = f.body + body + ast.parse("return (block_size, hop_size, max_samples)").body
+    return ast.fix_missing_locations(f)
+
+
+def ret_reader_params(tr, v, env, node):
+    if v.ty == "error":
+        return v.text
+    if v.ty != "tuple" or len(v.const) != 3 or v.const[0].ty != "Z" or any(x.ty not in ("Z", "none") for x in v.const[1:]):
+        bad(node, "expected (block size, hop size or None, sample budget or None)")
+    opt = lambda x: "None" if x.ty == "none" else "(Some %s)" % x.text
+    return "Ok (%s, %s, %s)" % (v.const[0].text, opt(v.const[1]), opt(v.const[2]))
+
+
+def gen_reader(repo):
+    util = ast.parse(open(os.path.join(repo, "auditok", "util.py")).read())
+    out = list(HEADER)
+    out[3] = "From AV Require Import Base.PyList Base.PyFloat Tok.Model IO.Reader."
+    f = slice_reader(util)
+    sp = Spec("reader_params_gen", [("block_dur", "F"), ("hop_dur", "optF"), ("max_read", "optF"), ("sr", "Z")], ret_reader_params)
+    out.append("(* slice of AudioReader.__init__ and the wrapper constructors:\n" + ast.unparse(f) + "\n*)")
+    out.append(Pure(f, sp, module=util).translate())
+    return "\n".join(out)
+
+
+GENERATORS = {"reader": gen_reader, "loops": gen_loops, "savers": gen_savers, "fsrc": gen_fsrc, "algebra": gen_algebra, "split": gen_split, "dur": gen_dur, "region": gen_region, "silence": gen_silence, "buf": gen_buf, "fmt": gen_fmt}
 
 
 def emit_group(repo, group):
